@@ -983,15 +983,34 @@ def all_steps(plan):
 
 
 # ------------------------------------------------------------------ model variants (pending repairs)
-def local_names(query):
-    """lower-cased table aliases and CTE names of a real tree, collected with the real walker — what the
-    alias-aware cut (fixes/C11_2.diff) takes as `names`"""
+_TABLE_NAMES_ARE_LOCAL = None
+
+
+def table_names_are_local():
+    """does the live `prepare_integration_select` also treat the own name of an unaliased table as a local name
+    (fixes/C11_1.diff)?  probed once on `select int1.x from int1.int1`"""
+    global _TABLE_NAMES_ARE_LOCAL
+    if _TABLE_NAMES_ARE_LOCAL is None:
+        from mindsdb_sql import parse_sql
+        q = parse_sql('select int1.x from int1.int1', 'mindsdb')
+        planner_for(Cat(None, None, None, None)).prepare_integration_select('int1', q)
+        _TABLE_NAMES_ARE_LOCAL = len(q.targets[0].parts) == 2
+    return _TABLE_NAMES_ARE_LOCAL
+
+
+def local_names(query, table_names=None):
+    """the `names` the live cut works with: lower-cased table aliases and CTE names of a real tree (and, if the
+    planner does so, own names of unaliased tables), collected with the real walker"""
+    if table_names is None:
+        table_names = table_names_are_local()
     from mindsdb_sql.planner.utils import query_traversal
     out = []
 
     def cb(node, is_table, **kw):
         if is_table and getattr(node, 'alias', None) is not None:
             out.append(str(node.alias.parts[-1]).lower())
+        elif is_table and table_names and type(node).__name__ == 'Identifier':
+            out.append(str(node.parts[-1]).lower())
         if getattr(node, 'cte', None):
             out.extend(str(c.name.parts[-1]).lower() for c in node.cte)
     query_traversal(copy.deepcopy(query), cb)
@@ -1036,9 +1055,14 @@ class Variants:
             if real != mod:
                 self.note((v, a), dict(ctx, field='prepare_integration_select', impl=real, model=mod))
 
+    LIVE = ('N', 'A')      # since 0e75382 / 1ea1207; the older combinations are kept to name a regression
+
     def verdict(self):
         ok = [c for c in self.COMBOS if self.miss[c] is None]
-        name = lambda c: 'get_query_info=%s, cut=%s' % ('cte-skipping' if c[0] else 'pinned', 'alias-aware' if c[1] else 'pinned')
+        name = lambda c: 'get_query_info=%s, cut=%s' % ('cte-skipping' if c[0] else 'as before 0e75382', 'alias-aware' if c[1] else 'as before 1ea1207')
+        if self.miss[self.LIVE] is None:
+            return True, name(self.LIVE), ''
         if ok:
-            return True, name(ok[0]), ''
+            return False, None, 'the planner follows an OLDER model variant (%s); vs the live model: %s' % (
+                name(ok[0]), json.dumps(self.miss[self.LIVE], default=str)[:700])
         return False, None, '; '.join('%s: %s' % (name(c), json.dumps(self.miss[c], default=str)[:500]) for c in self.COMBOS)
